@@ -6,18 +6,19 @@ from concurrent.futures import ThreadPoolExecutor
 
 VERIF = os.path.dirname(os.path.dirname(os.path.abspath(__file__)))
 props = ["C%02d" % i for i in range(1, 21)]
-seeds = sorted(d for d in os.listdir(os.path.join(VERIF, "seeded")) if os.path.isdir(os.path.join(VERIF, "seeded", d)))
+CORPUS = os.environ.get("CORPUS", "seeded")   # "seeded" (must be reported) or "refactors" (must stay silent)
+seeds = sorted(d for d in os.listdir(os.path.join(VERIF, CORPUS)) if os.path.isdir(os.path.join(VERIF, CORPUS, d)))
 workers = int(sys.argv[1]) if len(sys.argv) > 1 else 4
 only = sys.argv[2:] or seeds
 
 
 def run_seed(args):
     w, sid = args
-    base = "/tmp/vscratch/w%d" % w
+    base = "/tmp/vscratch/%s%d" % (CORPUS[0], w)
     repo = base + "/repo"
     os.makedirs(base, exist_ok=True)
     subprocess.run(["rsync", "-a", "--delete", "--exclude", "target", "--exclude", ".git", "/repo/", repo + "/"], check=True)
-    r = subprocess.run("patch -p1 -s < %s" % os.path.join(VERIF, "seeded", sid, "patch.diff"), shell=True, cwd=repo, capture_output=True, text=True)
+    r = subprocess.run("patch -p1 -s < %s" % os.path.join(VERIF, CORPUS, sid, "patch.diff"), shell=True, cwd=repo, capture_output=True, text=True)
     if r.returncode != 0:
         return sid, {"error": "patch failed: " + r.stdout + r.stderr}
     env = dict(os.environ, SCPI_REPO=repo, SCPI_EVIDENCE_DIR=base + "/evidence", SCPI_VERIF_CACHE=base + "/cache")
@@ -27,6 +28,8 @@ def run_seed(args):
         out = pr.stdout + pr.stderr
         viol = re.findall(r"^\[%s\] (R[\w.]+): " % p, out, flags=re.M)
         res[p] = {"rc": pr.returncode, "rules": sorted(set(viol))}
+        if CORPUS != "seeded" and pr.returncode:
+            res[p]["lines"] = [l for l in out.splitlines() if l.startswith("[%s] R" % p)][:6]
     return sid, res
 
 
@@ -45,12 +48,16 @@ def main():
             return out
         results = [r for part in ex.map(work, range(workers)) for r in part]
     table = dict(results)
-    path = os.path.join(VERIF, "seeded", "MATRIX.json")
+    path = os.path.join(VERIF, CORPUS, "MATRIX.json")
     old = json.load(open(path)) if os.path.exists(path) else {}
     old.update(table)
     json.dump(old, open(path, "w"), indent=1, sort_keys=True)
     missed = [s for s, r in old.items() if isinstance(r, dict) and "error" not in r and not r.get(s.split("-")[0], {}).get("rc")]
-    print("seeds:", len(old), "missed by own property's check:", missed)
+    if CORPUS == "seeded":
+        print("seeds:", len(old), "missed by own property's check:", missed)
+    else:
+        alarms = {s: [p for p, v in r.items() if isinstance(v, dict) and v.get("rc")] for s, r in old.items() if isinstance(r, dict)}
+        print("refactors:", len(old), "false alarms:", {s: a for s, a in alarms.items() if a})
 
 
 main()
